@@ -49,6 +49,7 @@ def dispatch (line : String) : String :=
   | "pexclfault" :: rest => (handlePFault false rest).getD "BAD-CASE\t0"
   | "pexclfile" :: rest => (handlePExclFile rest).getD "BAD-CASE\t0"
   | "jres" :: rest => (handleJRes rest).getD "BAD-CASE\t0"
+  | "juniqbig" :: rest => (handleJUniqBig rest).getD "BAD-CASE\t0"
   | "jlog" :: rest => (handleJLog rest).getD "BAD-CASE\t0"
   | "arpc" :: rest => (handleArpC rest).getD "BAD-CASE\t0"
   | "socks" :: rest => (handleSocks rest).getD "BAD-CASE\t0"
